@@ -184,7 +184,9 @@ def h_arith(E, expr):
 
 
 ANTICIPATED = ['A^i', 'A^(2*i)', 'A^0.5', 'A^-1', 'A^[1,2]', 'A^A', '2^A', 'v^2', 'A+v', 'A+1', 'v/A', 'A/v', 'v*v*v', 'A*v*v*v', 'sin(A)', 'abs(A)', 'trace(v)', 'cross(v,v)', 'A^1.5',
-               'det(v)', 'norm(A,v)', 'min(A,1)', 'arctan2(0,0)', '1/0', 'ln(0)', 'fact(-1)' if False else 'A*[1,2,3]', '[1,2]+[1,2,3]', 'A^(1/0)', 'tan(pi/2)^-1*0+1/0', '[[1,2],[3]]', '[1,2']
+               'det(v)', 'norm(A,v)', 'min(A,1)', 'arctan2(0,0)', '1/0', 'ln(0)', 'fact(-1)' if False else 'A*[1,2,3]', '[1,2]+[1,2,3]', 'A^(1/0)', 'tan(pi/2)^-1*0+1/0', '[[1,2],[3]]', '[1,2',
+               # anticipated problems in submissions that contain braces (tensor-index names) - nothing may treat the submission as a format template
+               '(x_{1}+2]', '[1,2)+x_{1}', 'x_{1}+2)', '(x_{1}', 'x_{1}+zz_{0}', 'gg_{1}(x_{1})', 'x_{1}/0', 'x_{1}^[1,2]', 'A+x_{1}', '{x_{1}}', 'x_{1}_{2}', 'x_{1}+%s', 'sin(x_{1},2)']
 
 
 def h_anticipated(E, idx, negative_powers):
@@ -198,7 +200,7 @@ def h_anticipated(E, idx, negative_powers):
                      sample_from={}, user_functions={})
     # A and v are concrete matrix / vector constants of the problem
     from mitxgraders.helpers.calc.math_array import MathArray
-    g = MatrixGrader(answers='A*c', user_constants={'c': c, 'A': MathArray([[1.0, 2.0], [3.0, 5.0]]), 'v': MathArray([1.0, 2.0])}, samples=1, max_array_dim=2,
+    g = MatrixGrader(answers='A*c', user_constants={'c': c, 'A': MathArray([[1.0, 2.0], [3.0, 5.0]]), 'v': MathArray([1.0, 2.0]), 'x_{1}': 2.0}, samples=1, max_array_dim=2,
                      negative_powers=negative_powers)
     try:
         r = g(None, expr)
